@@ -1153,17 +1153,18 @@ func (c *Conn) readAll(r io.Reader, size int) (*[]byte, error) {
 		if n > 0 {
 			*pbuf = (*pbuf)[:len(*pbuf)+n]
 		}
+		// The limit applies to what has been inflated so far, whatever capacity
+		// the allocator handed out, and also to the last read, which may deliver
+		// data together with io.EOF.
+		if c.isMessageTooLarge(len(*pbuf)) {
+			c.Engine.BodyAllocator.Free(pbuf)
+			return nil, ErrMessageTooLarge
+		}
 		if err != nil {
 			if err == io.EOF {
 				err = nil
 			}
 			return pbuf, err
-		}
-		// The limit applies to what has been inflated so far, whatever capacity
-		// the allocator handed out.
-		if c.isMessageTooLarge(len(*pbuf)) {
-			c.Engine.BodyAllocator.Free(pbuf)
-			return nil, ErrMessageTooLarge
 		}
 		if len(*pbuf) == cap(*pbuf) {
 			l := len(*pbuf)
